@@ -71,6 +71,9 @@ MUTANTS = [
     ("sign from float", "AegeanTools/angle_tools.py",
      "    if d[0].startswith('-') or float(d[0]) < 0:",
      "    if float(d[0]) < 0:", "C17-R5"),
+    ("versine by 1 - cos (seed C17b)", "AegeanTools/angle_tools.py",
+     "        * np.sin(np.radians(dlon) / 2) ** 2",
+     "        * (1 - np.cos(np.radians(dlon))) / 2", "C17-R6"),
 ]
 TWINS = [
     ("haversine with explicit conversion", "AegeanTools/angle_tools.py",
@@ -91,7 +94,8 @@ def find_func(e, name):
 def run(ctx):
     prog = ctx.prog
     mod = prog.module("angle_tools")
-    formulae(ctx, prog, {"R1": "C17-R1", "R2": "C17-R2", "R3": "C17-R3"})
+    formulae(ctx, prog, {"R1": "C17-R1", "R2": "C17-R2", "R3": "C17-R3",
+                         "R6": "C17-R6"})
     sexagesimal(ctx, prog, mod)
 
 
@@ -137,6 +141,37 @@ def formulae(ctx, prog, R):
         else:
             ctx.check(R["R1"], fi, "clamp min(1, sqrt(h))", False,
                       "clamp arguments %s" % args, node=fi.node)
+    if R.get("R6"):
+        ctx.rule(R["R6"], "conditioning near zero separation: in the "
+                 "distance formula no sum involving a trigonometric term "
+                 "cancels to zero at coincident points while its terms do "
+                 "not (1 - cos x loses all digits for small x; the half-"
+                 "angle sine form does not), and no arccos is taken (its "
+                 "argument tends to 1)")
+        same = {ra2: ra1, d2: d1}
+        n6 = 0
+        bad = []
+        for node in sp.preorder_traversal(E):
+            if isinstance(node, sp.acos):
+                bad.append("arccos(%s)" % (node.args[0],))
+            if isinstance(node, sp.Add) and node.has(sp.sin, sp.cos, sp.tan):
+                n6 += 1
+                terms = [t.subs(same) for t in node.args]
+                try:
+                    tot = sp.simplify(sum(terms))
+                    nz = [t for t in terms if sp.simplify(t) != 0]
+                except (TypeError, ValueError):
+                    continue
+                if tot == 0 and nz:
+                    bad.append(str(node))
+        ctx.check(R["R6"], fi, "no cancelling sum in the distance formula "
+                  "(%d sums examined)" % n6, not bad,
+                  "catastrophic cancellation for nearly coincident points: "
+                  "%s evaluates to the difference of nearly equal numbers; "
+                  "separations below ~1e-4 deg lose accuracy and distinct "
+                  "points closer than ~1e-6 deg get distance 0" % bad,
+                  node=fi.node)
+        ctx.floor(R["R6"], n6, 1, "sums with trigonometric terms in gcd")
     # ---------------------------------------------------------------- R2
     ctx.rule(R["R2"], "bear == degrees(atan2(sin dRA cos d2, cos d1 sin d2 "
              "- sin d1 cos d2 cos dRA))")
